@@ -505,6 +505,26 @@ theorem scale_keeps_n (m : Mesh) (hm : m.Inv) (f : Factor) (ref : Option (List R
     (h : stepM m (.scale f ref b) = .ok (recv, ret)) : ret.n = m.n :=
   (stepM_keeps m hm _ recv ret h).2.2.1
 
+/-- **scaling a mesh scales its cells by `|s|`** (counts kept, see `scale_keeps_n`): either form,
+any factors (negative included), any reference point -/
+theorem scale_cells (m : Mesh) (hm : m.Inv) (f : Factor) (ref : Option (List Rat)) (b : Bool) (recv ret : Mesh)
+    (h : stepM m (.scale f ref b) = .ok (recv, ret)) (a : Nat) (ha : a < m.region.ndim) :
+    ret.cellAt a = |f.at a| * m.cellAt a := by
+  obtain ⟨_, _, _, x, hx⟩ := stepM_region_n m hm _ recv ret h
+  have hn' : ret.n = m.n := scale_keeps_n m hm f ref b recv ret h
+  have he := scale_edges m.region hm.1 f ref b x ret.region (by simpa [stepR] using hx) a ha
+  unfold Mesh.cellAt Mesh.nAt; rw [he, hn']; ring
+
+/-- **translating a mesh keeps counts and cells** (either form) -/
+theorem translate_keeps_cells (m : Mesh) (hm : m.Inv) (v : List Rat) (b : Bool) (recv ret : Mesh)
+    (h : stepM m (.translate v b) = .ok (recv, ret)) (a : Nat) (ha : a < m.region.ndim) :
+    ret.n = m.n ∧ ret.cellAt a = m.cellAt a := by
+  obtain ⟨_, _, hn, x, hx⟩ := stepM_region_n m hm _ recv ret h
+  have hn' : ret.n = m.n := by simpa [opN] using hn
+  have he := translate_keeps_edges m.region hm.1 v b x ret.region (by simpa [stepR] using hx) a ha
+  refine ⟨hn', ?_⟩
+  unfold Mesh.cellAt Mesh.nAt; rw [he, hn']
+
 /-- **"cell·n equals the region edges" after every history**: for every mesh reached by any
 finite history, on every axis the count is positive and `n · cell = pmax − pmin` exactly -/
 theorem cells_tile_after_history (m : Mesh) (hm : m.Inv) (ops : List Op) (a : Nat) (ha : a < (runM m ops).ndim) :
